@@ -163,14 +163,47 @@ func propC06(c *ctx) error {
 		{`<p :define="f"><q :text="${x}">o</q></p><r :with="x := ${'call-site'}" :insert="f">o</r><r :insert="f">o</r>`, `<r><q>call-site</q></r><r><q>d</q></r>`},
 		{`<a :with="x := ${'1'}"><b :with="y := ${x + '2'}"><c :with="x := ${y + '3'}"><d :with="y := ${x + '4'}" :text="${x}|${y}">o</d><e :text="${x}|${y}">o</e></c><f :text="${x}|${y}">o</f></b></a>`, `<a><b><c><d>123|1234</d><e>123|12</e></c><f>1|12</f></b></a>`},
 	}
+	nFixed := len(tcs)
+	var recData []val
+	// a binding made by `with` inside a fragment that re-enters ITSELF: after the inner instance has evaluated the same
+	// attribute with another value, the rest of the outer instance still sees its own binding
+	{
+		var rt func(t *c03Tree) string
+		rt = func(t *c03Tree) string {
+			out := "<b>"
+			for _, k := range t.kids {
+				out += "<x>" + rt(k) + "</x>"
+			}
+			return out + "<i>" + t.name + "</i><u>" + fmt.Sprint(len(t.kids)) + "</u></b>"
+		}
+		rr := newRng(c.seed, "C06rec")
+		for i, n := 0, c.n(12, 300); i < n; i++ {
+			var roots []*c03Tree
+			var rv []val
+			want := ""
+			for k, m := 0, 1+rr.n(2); k < m; k++ {
+				t := genC03Tree(rr, 1+rr.n(3), string(rune('a'+k)))
+				roots = append(roots, t)
+				rv = append(rv, t.val())
+				want += "<div>" + rt(t) + "</div>"
+			}
+			tpl := `<template :define="tw"><b :with="cur := ${n}; cnt := ${len(n.kids)}"><x :range="_, n : cur.kids" :insert="tw">x</x><i :text="${cur.name}">o</i><u :text="${cnt}">o</u></b></template><div :range="_, n : tree" :insert="tw">x</div>`
+			tcs = append(tcs, tc{tpl, want})
+			_ = roots
+			recData = append(recData, vAnySlice(rv...))
+		}
+	}
 	dataKinds := []string{"map", "struct", "ptr"}
-	for _, t := range tcs {
+	for ti, t := range tcs {
 		for _, dk := range dataKinds {
 			var data any
 			tpl := t.tpl
 			switch dk {
 			case "map":
 				data = vMap(kv{"x", vStr("d")}, kv{"n", vNil()}, kv{"ns", vAnySlice(vNil(), vInt(1))}).j
+				if k := ti - nFixed; k >= 0 && k < len(recData) {
+					data = vMap(kv{"x", vStr("d")}, kv{"tree", recData[k]}).j
+				}
 			default:
 				continue // struct / pointer data are exercised through the scope-tree part (fields A, B, methods)
 			}
